@@ -260,7 +260,8 @@ inductive Bookkeeping where
   | markerExpiry (cp tag : Bytes) (unlink : Bool)         -- Redis expiring a marker: DEL / UNLINK <marker>
   | cpHashSet (runId cpName : Bytes) (nx : Bool)          -- HSET / HSETNX redis-gunyu-checkpoint-hash
   | cpHashDel (runId : Bytes)                             -- HDEL redis-gunyu-checkpoint-hash
-  | rootSet (cp : Bytes) (fields : List Bytes)            -- HSET <cp> … (SetCheckpoint, namespace mode)
+  | rootSet (cp : Bytes) (fields : List Bytes)            -- HSET <cp> … (SetCheckpoint, UpdateCheckpoint, namespace mode)
+  | rootHdel (cp : Bytes) (fields : List Bytes)           -- HDEL <cp> fields… (DelCheckpoint, DelStaleCheckpoint, UpdateCheckpoint)
   | latestSeed (cp tag : Bytes) (fields : List Bytes)     -- HSET <latest> … (namespace seed)
   | latestDel (cp tag : Bytes)                            -- DEL <latest> (namespace cleanup)
   | rootDel (cp : Bytes)                                  -- DEL <cp> / <cp>:frontier (cleanup)
@@ -273,6 +274,7 @@ def Bookkeeping.toCmd : Bookkeeping → Cmd
   | .cpHashSet runId cpName nx => ⟨if nx then wHsetnx else wHset, [checkpointHashKey, runId, cpName]⟩
   | .cpHashDel runId => ⟨wHdel, [checkpointHashKey, runId]⟩
   | .rootSet cp fields => ⟨wHset, cp :: fields⟩
+  | .rootHdel cp fields => ⟨wHdel, cp :: fields⟩
   | .latestSeed cp tag fields => ⟨wHset, Gen.latestKey cp tag :: fields⟩
   | .latestDel cp tag => ⟨wDel, [Gen.latestKey cp tag]⟩
   | .rootDel cp => ⟨wDel, [cp, Gen.frontierKey cp]⟩
